@@ -236,9 +236,10 @@ func main() {
 					if comp {
 						backends["proto"] = &protoStore{serverStore: srvStore}
 						backends["protoraw"] = &protoRaw{dir: sdir}
+						backends["protorelabel"] = &protoRaw{dir: sdir, relabel: true}
 					}
 					for bname, leaf := range backends {
-						verified := verify || bname == "proto" || bname == "protoraw"
+						verified := verify || bname == "proto" || bname == "protoraw" || bname == "protorelabel"
 						for wname, s := range wrappers(leaf, filepath.Join(*dir, "cache")) {
 							scen++
 							c, err := s.GetChunk(w.ids[w.target])
@@ -308,6 +309,28 @@ func consumers1(tw *trace.Writer, scen int, w *world, s desync.Store, class, dir
 	var buf bytes.Buffer
 	_, err = io.Copy(&buf, rs)
 	emit("IndexPos", err, buf.Bytes())
+	// the file handle of an index mount: requests that cross chunk boundaries. A short answer without an error is what the
+	// kernel takes for end-of-file - it fills the rest of the pages with zeros - so it counts as zeros here
+	{
+		read := desync.VerifIndexFileRead(w.idx, s)
+		var out []byte
+		var merr error
+		stride := 700
+		for off := 0; off < len(w.blob) && merr == nil; off += stride {
+			want := stride
+			if off+want > len(w.blob) {
+				want = len(w.blob) - off
+			}
+			b, errno := read(make([]byte, want), int64(off))
+			if errno != 0 {
+				merr = fmt.Errorf("errno %d", errno)
+				break
+			}
+			out = append(out, b...)
+			out = append(out, make([]byte, want-len(b))...)
+		}
+		emit("MountHandle", merr, out)
+	}
 	// sparse file
 	cf := filepath.Join(dir, "sparse.cache")
 	os.Remove(cf)
@@ -346,7 +369,12 @@ func (p *protoStore) Close() error                               { return nil }
 func (p *protoStore) String() string                             { return "proto" }
 
 // a raw casync peer that sends whatever bytes are stored under the name as the CHUNK payload
-type protoRaw struct{ dir string }
+// relabel: the peer labels its reply with the ID the object's content really has (a peer that is out of step, or hostile):
+// the reply is then a self-consistent chunk - just not the requested one
+type protoRaw struct {
+	dir     string
+	relabel bool
+}
 
 func (p *protoRaw) GetChunk(id desync.ChunkID) (*desync.Chunk, error) {
 	cr, sw := io.Pipe()
@@ -363,7 +391,13 @@ func (p *protoRaw) GetChunk(id desync.ChunkID) (*desync.Chunk, error) {
 			if rerr != nil {
 				peer.SendMissing(id)
 			} else {
-				peer.SendProtocolChunk(id, desync.CaProtocolChunkCompressed, b)
+				label := id
+				if p.relabel {
+					if d, derr := desync.Decompress(nil, b); derr == nil {
+						label = desync.NewChunk(d).ID()
+					}
+				}
+				peer.SendProtocolChunk(label, desync.CaProtocolChunkCompressed, b)
 			}
 		}
 		sw.Close()
